@@ -1017,7 +1017,7 @@ macro_rules! cross_all {
             x_serdelite_postcard XSerdelitePostcard SerdeLite Postcard, x_serdelite_rkyv XSerdeliteRkyv SerdeLite Rkyv, x_serdelite_serdelite XSerdeliteSerdelite SerdeLite SerdeLite,
             x_patchjson_putjson XPatchjsonPutjson PatchJson PutJson, x_putjson_patchcbor XPutjsonPatchcbor PutJson PatchCbor,
             x_patchcbor_json XPatchcborJson PatchCbor Json, x_putcbor_rkyv XPutcborRkyv PutCbor Rkyv,
-            x_patchrkyv_putrkyv XPatchrkyvPutrkyv PatchRkyv PutRkyv, x_putserdelite_patchserdelite XPutserdelitePatchserdelite PutSerdeLite PatchSerdeLite,
+            x_patchcbor_putrkyv XPatchcborPutrkyv PatchCbor PutRkyv, x_putjson_patchserdelite XPutjsonPatchserdelite PutJson PatchSerdeLite,
             x_patchmsgpack_putmsgpack XPatchmsgpackPutmsgpack PatchMsgPack PutMsgPack, x_putpostcard_patchpostcard XPutpostcardPatchpostcard PutPostcard PatchPostcard
         }
     };
@@ -1028,6 +1028,17 @@ macro_rules! cross_define {
     };
 }
 cross_all!(cross_define);
+
+// `PatchRkyv` / `PutSerdeLite` as *input*: the macro picks the argument struct's derives from the literal
+// names `Rkyv` / `SerdeLite` only, so the derives have to be given by hand (`input_derive`)
+#[server(name = XPatchrkyvIn, prefix = "/x", input = PatchRkyv, output = PutRkyv, input_derive = (Clone, rkyv::Archive, rkyv::Serialize, rkyv::Deserialize), client = LoopClient, server = LoopServer)]
+pub async fn x_patchrkyv_in(p: Payload, mode: u8, kind: u8, msg: String) -> Result<Payload, ServerFnError> {
+    typed_body(p, mode, kind, msg, |v, m| mk_n(v, m).unwrap())
+}
+#[server(name = XPutserdeliteIn, prefix = "/x", input = PutSerdeLite, output = PatchSerdeLite, input_derive = (Clone, serde_lite::Serialize, serde_lite::Deserialize), client = LoopClient, server = LoopServer)]
+pub async fn x_putserdelite_in(p: Payload, mode: u8, kind: u8, msg: String) -> Result<Payload, ServerFnError> {
+    typed_body(p, mode, kind, msg, |v, m| mk_n(v, m).unwrap())
+}
 
 // ------------------------------------------------------------------ streaming
 
@@ -1206,6 +1217,8 @@ fn hex_remote(f: &str, data: Vec<u8>) -> Option<Result<Raw, ServerFnError>> {
         "hx_post" => block_on(HxPost { data }.run_on_client()),
         "hx_patch" => block_on(HxPatch { data }.run_on_client()),
         "hx_put" => block_on(HxPut { data }.run_on_client()),
+        "hx_mw_id" => block_on(HxMwId { data }.run_on_client()),
+        "hx_mw_block" => block_on(HxMwBlock { data }.run_on_client()),
         _ => return None,
     })
 }
@@ -1215,6 +1228,8 @@ fn hex_direct(f: &str, data: Vec<u8>) -> Option<Result<Raw, ServerFnError>> {
         "hx_post" => block_on(hx_post(data)),
         "hx_patch" => block_on(hx_patch(data)),
         "hx_put" => block_on(hx_put(data)),
+        "hx_mw_id" => block_on(hx_mw_id(data)),
+        "hx_mw_block" => block_on(hx_mw_block(data)),
         _ => return None,
     })
 }
@@ -1244,7 +1259,103 @@ fn typed_both(
         t_patchurl => TPatchurl, t_puturl => TPuturl, t_cbor => TCbor, t_msgpack => TMsgpack,
         t_postcard => TPostcard, t_rkyv => TRkyv, t_serdelite => TSerdelite, t_patchjson => TPatchjson,
         t_putcbor => TPutcbor, t_json_cbor => TJsonCbor, t_geturl_rkyv => TGeturlRkyv,
-        t_postcard_msgpack => TPostcardMsgpack)
+        t_postcard_msgpack => TPostcardMsgpack,
+        t_default_path => TDefaultPath, t_prefix => TPrefix, t_auto_name => TAutoName, t_mw_id => TMwId,
+        x_patchrkyv_in => XPatchrkyvIn, x_putserdelite_in => XPutserdeliteIn)
+    .or_else(|| cross_both(name, p, mode, kind, msg))
+    .or_else(|| {
+        let q = p.clone();
+        let m = msg.clone();
+        match name {
+            "t_many" => Some((
+                block_on(
+                    TMany { id: q.id, small: q.small, text: q.text.clone(), opt: q.opt.clone(), list: q.list.clone(), nums: q.nums.clone(), nested: q.nested.clone(), mode, kind, msg: m.clone() }
+                        .run_on_client(),
+                ),
+                block_on(t_many(q.id, q.small, q.text, q.opt, q.list, q.nums, q.nested, mode, kind, m)),
+            )),
+            "t_defaults" => Some((
+                block_on(
+                    TDefaults { id: q.id, small: q.small, text: q.text.clone(), opt: q.opt.clone(), list: q.list.clone(), nums: q.nums.clone(), nested: q.nested.clone(), mode, kind, msg: m.clone() }
+                        .run_on_client(),
+                ),
+                block_on(t_defaults(q.id, q.small, q.text, q.opt, q.list, q.nums, q.nested, mode, kind, m)),
+            )),
+            "hand_echo" => Some((
+                block_on(HandEcho { p: q.clone(), mode, kind, msg: m.clone() }.run_on_client()),
+                block_on(HandEcho { p: q, mode, kind, msg: m }.run_body()),
+            )),
+            _ => None,
+        }
+    })
+}
+
+macro_rules! cross_dispatch {
+    ($( $f:ident $S:ident $in:ident $out:ident ),* $(,)?) => {
+        fn cross_both(
+            name: &str,
+            p: &Payload,
+            mode: u8,
+            kind: u8,
+            msg: &String,
+        ) -> Option<(Result<Payload, ServerFnError>, Result<Payload, ServerFnError>)> {
+            match name {
+                $( stringify!($f) => Some((
+                    block_on($S { p: p.clone(), mode, kind, msg: msg.clone() }.run_on_client()),
+                    block_on($f(p.clone(), mode, kind, msg.clone())),
+                )), )*
+                _ => None,
+            }
+        }
+        const CROSS: &[&str] = &[ $( stringify!($f) ),* ];
+        fn cross_path(name: &str) -> Option<(&'static str, Method)> {
+            match name {
+                $( stringify!($f) => Some((<$S as ServerFn>::PATH, <<$S as ServerFn>::Protocol as server_fn::Protocol<$S, Payload, LoopClient, LoopServer, ServerFnError>>::METHOD)), )*
+                _ => None,
+            }
+        }
+    };
+}
+cross_all!(cross_dispatch);
+
+/// typed functions outside the cross product with the common `(p, mode, kind, msg)` behaviour
+const EXTRA_TYPED: &[&str] = &[
+    "t_default_path", "t_prefix", "t_auto_name", "t_mw_id", "x_patchrkyv_in", "x_putserdelite_in", "t_many", "t_defaults",
+    "hand_echo",
+];
+/// functions whose declared error type is not `ServerFnError`
+const APP_FNS: &[&str] = &["t_cbor_app", "t_json_bin"];
+
+fn is_typed(f: &str) -> bool {
+    TYPED.contains(&f) || EXTRA_TYPED.contains(&f) || CROSS.contains(&f) || APP_FNS.contains(&f)
+}
+
+macro_rules! path_table {
+    ($name:expr; $( $f:literal => $S:ty ),* $(,)?) => {
+        match $name {
+            $( $f => Some(<$S as ServerFn>::PATH), )*
+            _ => None,
+        }
+    };
+}
+
+/// the path the client calls for a function (`ServerFn::PATH`)
+fn path_of(f: &str) -> Option<&'static str> {
+    if let Some((p, _)) = cross_path(f) {
+        return Some(p);
+    }
+    path_table!(f;
+        "t_json" => TJson, "t_geturl" => TGeturl, "t_posturl" => TPosturl, "t_deleteurl" => TDeleteurl,
+        "t_patchurl" => TPatchurl, "t_puturl" => TPuturl, "t_cbor" => TCbor, "t_msgpack" => TMsgpack,
+        "t_postcard" => TPostcard, "t_rkyv" => TRkyv, "t_serdelite" => TSerdelite, "t_patchjson" => TPatchjson,
+        "t_putcbor" => TPutcbor, "t_json_cbor" => TJsonCbor, "t_geturl_rkyv" => TGeturlRkyv,
+        "t_postcard_msgpack" => TPostcardMsgpack, "t_cbor_app" => TCborApp, "t_json_bin" => TJsonBin,
+        "t_default_path" => TDefaultPath, "t_prefix" => TPrefix, "t_auto_name" => TAutoName, "t_mw_id" => TMwId,
+        "x_patchrkyv_in" => XPatchrkyvIn, "x_putserdelite_in" => XPutserdeliteIn, "t_many" => TMany,
+        "t_defaults" => TDefaults, "hand_echo" => HandEcho<Payload>, "hx_post" => HxPost, "hx_patch" => HxPatch,
+        "hx_put" => HxPut, "hx_mw_id" => HxMwId, "hx_mw_block" => HxMwBlock, "noargs_get" => NoArgsGet,
+        "noargs_post" => NoArgsPost, "noargs_cbor" => NoArgsCbor, "text_echo" => TextEcho, "bytes_echo" => BytesEcho,
+        "text_out" => TextOut, "bytes_out" => BytesOut)
 }
 
 const TYPED: &[&str] = &[
@@ -1266,11 +1377,11 @@ fn parse_tmode(fn_name: &str, w: &[&str]) -> Option<(Payload, TMode)> {
     let p: Payload = serde_json::from_slice(&unhex(w.get(1)?)?).ok()?;
     let m = match (w[0], w.len()) {
         ("echo", 2) => TMode::Echo,
-        ("fail", 4) if fn_name != "t_cbor_app" => {
+        ("fail", 4) if !APP_FNS.contains(&fn_name) => {
             let k = VARIANTS.iter().position(|v| v == &w[2])?;
             TMode::Fail(k as u8, unhex_str(w[3])?)
         }
-        ("failapp", 3) if fn_name == "t_cbor_app" => match serde_json::from_slice::<AppErr>(&unhex(w[2])?).ok()? {
+        ("failapp", 3) if APP_FNS.contains(&fn_name) => match serde_json::from_slice::<AppErr>(&unhex(w[2])?).ok()? {
             AppErr::Custom { code, msg } => TMode::FailApp(code, msg),
             _ => return None,
         },
@@ -1280,7 +1391,25 @@ fn parse_tmode(fn_name: &str, w: &[&str]) -> Option<(Payload, TMode)> {
 }
 
 /// (remote observable, direct observable)
+fn show_bin_res(r: &Result<Payload, BinErr>) -> String {
+    match r {
+        Ok(p) => format!("ok {}", hex(serde_json::to_string(p).unwrap().as_bytes())),
+        Err(BinErr::Sfe(e)) => format!("err appsfe:{}", show_sfe_err(e)),
+        Err(e) => format!("err app:{}", hex(serde_json::to_string(e).unwrap().as_bytes())),
+    }
+}
+
 fn run_typed(fn_name: &str, p: &Payload, m: &TMode) -> Option<(String, String)> {
+    if fn_name == "t_json_bin" {
+        let (mode, code, msg) = match m {
+            TMode::Echo => (0, 0, String::new()),
+            TMode::FailApp(c, s) => (1, *c, s.clone()),
+            _ => return None,
+        };
+        let remote = block_on(TJsonBin { p: p.clone(), mode, code, msg: msg.clone() }.run_on_client());
+        let direct = block_on(t_json_bin(p.clone(), mode, code, msg));
+        return Some((show_bin_res(&remote), show_bin_res(&direct)));
+    }
     if fn_name == "t_cbor_app" {
         let (mode, code, msg) = match m {
             TMode::Echo => (0, 0, String::new()),
@@ -1449,7 +1578,7 @@ fn op(line: &str) -> String {
             }
         }
         ["tcall", f, rest @ ..] if rest.len() >= 2 => {
-            if !(TYPED.contains(f) || *f == "t_cbor_app") {
+            if !is_typed(f) {
                 return "bad-op".into();
             }
             let Some((p, m)) = parse_tmode(f, rest) else { return "bad-op".into() };
@@ -1542,7 +1671,7 @@ fn op(line: &str) -> String {
         }
         ["corrupt", f, side, spec, rest @ ..] if rest.len() >= 2 => {
             let Some(m) = parse_mut(spec) else { return "bad-op".into() };
-            if !(TYPED.contains(f) || *f == "t_cbor_app") || !["req", "res"].contains(side) {
+            if !is_typed(f) || !["req", "res"].contains(side) {
                 return "bad-op".into();
             }
             let Some((p, tm)) = parse_tmode(f, rest) else { return "bad-op".into() };
